@@ -106,6 +106,10 @@ GENERATORS = {
     "full-3": [[-0.05, 0.01, 0.02], [0.02, -0.04, 0.03], [0.03, 0.03, -0.05]],
     "four-chain-equal(defective)": [[-0.01, 0, 0, 0], [0.01, -0.01, 0, 0], [0, 0.01, -0.01, 0],
                                     [0, 0, 0.01, 0]],
+    # rates far below 1/dt (populations move by < 1e-5 per step) and a fast pair leaking slowly
+    # into a trap: dynamics on very different time scales within one run
+    "slow-3": [[-2.0e-6, 1.0e-6, 0.0], [2.0e-6, -4.0e-6, 1.0e-6], [0.0, 3.0e-6, -1.0e-6]],
+    "fast-pair-slow-trap": [[-0.20, 0.20, 0.0], [0.20, -0.200003, 0.0], [0.0, 3.0e-6, 0.0]],
 }
 
 
@@ -262,7 +266,7 @@ def grid_cases(tier):
     # the last three: steps that are not dyadic fractions (quotients of commensurate steps are
     # then not exact in floating point)
     axes = [(20, 1.0, 0.0), (21, 5.0, 0.0), (20, 0.5, 10.0), (25, 0.7, 0.0), (25, 0.1, 0.0),
-            (25, 0.3, 0.0)]
+            (25, 0.3, 0.0), (300, 4.0, 0.0)]      # the last one runs into equilibrium
     if tier == "thorough":
         axes += [(101, 1.0, 0.0), (50, 2.0, -20.0), (33, 0.25, 3.0)]
     for g in GENERATORS:
